@@ -218,4 +218,13 @@ let handle kind id _hd rest =
       else if String.length t > 2 && String.sub t 0 2 = "B:" then stream_event rb (String.sub t 2 (String.length t - 2))
       else failwith ("bad pair event " ^ t)) (toks evs);
     stream_finish ra; stream_finish rb
+  | "W", [ops; ca; cb; evs] ->
+    (* a stream (A) and a call (B) on one graph *)
+    let gg = build_graph id ops in
+    let ra = mk_srun id "A." (parse_scfg gg (toks ca)) and rb = mk_callrun id "B." (parse_cfg gg (toks cb)) in
+    List.iter (fun t ->
+      if String.length t > 2 && String.sub t 0 2 = "A:" then stream_event ra (String.sub t 2 (String.length t - 2))
+      else if String.length t > 2 && String.sub t 0 2 = "B:" then call_event rb (String.sub t 2 (String.length t - 2))
+      else failwith ("bad pair event " ^ t)) (toks evs);
+    stream_finish ra; call_finish rb
   | _ -> raise Not_found
